@@ -482,7 +482,16 @@ func init() {
 			in.storeCell(cell.kids[0], "gob: type mismatch", in.tb.True())
 			return &IfaceV{t: types.NewPointer(et), v: in.ptrTo(cell)}
 		}
-		in.store(dst.v.(*Ptr), v.v)
+		// gob does not transmit struct fields that hold their zero value, and Decode leaves the fields it did not
+		// receive as they are in the destination: a destination that is reused across Decode calls keeps stale
+		// fields. Modelled for scalar fields (one level; nested structs field-wise).
+		nv := v.v
+		if sv, ok := nv.(*StructV); ok {
+			if cur, ok2 := in.load(dst.v.(*Ptr)).(*StructV); ok2 && len(cur.f) == len(sv.f) {
+				nv = in.gobMergeStruct(sv, cur)
+			}
+		}
+		in.store(dst.v.(*Ptr), nv)
 		return &IfaceV{}
 	}
 	// ---- iter.Pull ----
@@ -781,6 +790,36 @@ func (in *Interp) hashStub(seed *Term, key Value) Value {
 }
 
 // ---------- gob ----------
+
+// gobMergeStruct: field-wise, the decoded value where the encoded field is non-zero, the destination's current
+// value where it is zero (gob omits zero-valued fields).
+func (in *Interp) gobMergeStruct(enc, cur *StructV) *StructV {
+	out := &StructV{f: make([]Value, len(enc.f))}
+	for i := range enc.f {
+		switch e := enc.f[i].(type) {
+		case *Term:
+			c, ok := cur.f[i].(*Term)
+			if !ok || c.w != e.w {
+				out.f[i] = e
+				continue
+			}
+			if e.IsBool() {
+				out.f[i] = in.tb.Ite(e, e, c) // false is the zero value
+				continue
+			}
+			out.f[i] = in.tb.Ite(in.tb.Eq(e, in.tb.Const(e.w, 0)), c, e)
+		case *StructV:
+			if c, ok := cur.f[i].(*StructV); ok && len(c.f) == len(e.f) {
+				out.f[i] = in.gobMergeStruct(e, c)
+			} else {
+				out.f[i] = e
+			}
+		default:
+			out.f[i] = e
+		}
+	}
+	return out
+}
 
 func (in *Interp) gobHandle(fn *ssa.Function, w *IfaceV) Value {
 	// the Encoder/Decoder object: a fresh cell of the result's element type whose identity maps to the stream queue
